@@ -19,6 +19,8 @@ METRICS = ['mse', 'median_diff_ratio']
 
 def cases(tier):
   yield {'laws': True}
+  yield from universe.multi_cases(
+      eg.TTOPO + ['CONV_2D', 'EMBEDDING_LOOKUP', 'MUL'], {'rp': 'p3', 'nd': 2})
   yield from universe.graph_cases([(1, eg.T21 + eg.U, 'all', 'none')],
                                   {'rp': 'p12', 'nd': 3})
   yield from universe.graph_cases(
@@ -105,12 +107,19 @@ def my_tensors(model, pm, data, key, si):
 
 def oracle(ctx):
   fails = []
+  for si in range(len(ctx.built.ops)):
+    fails.extend(_oracle_sig(ctx, si))
+  return fails
+
+
+def _oracle_sig(ctx, si):
+  fails = []
   built = ctx.built
   fm, qm = ctx.fm, ctx.pm
-  si, key = 0, built.keys[0]
+  key = built.keys[si]
   nd = ctx.case.get('nd', 1)
   kinds = [ctx.dkind] + (['alt'] if nd > 1 else []) + (['pos'] if nd > 2 else [])
-  dataset = [built.input_data(0, k) for k in kinds]
+  dataset = [built.input_data(si, k) for k in kinds]
   fs = fm.subs[si]
   in_names = {fs.tensors[t].name for t in fs.inputs}
   out_names = {fs.tensors[t].name for t in fs.outputs}
